@@ -411,7 +411,7 @@ func advAddrList(g *hx.Gen) []string {
 
 // advNatHoleResps: the answer(s) to a NatHoleVisitor / NatHoleClient with transaction id tid.  The numbers that
 // bound loops and socket counts in nathole.MakeHole are taken from small and from adversarial values;
-// ListenRandomPorts is kept <= 16 here (the unbounded value is the directed scenario "listen-random-ports").
+// ListenRandomPorts goes up to MaxInt64 (the repaired MakeHole clamps it; the directed scenario "listen-random-ports" is the regression case).
 func advNatHoleResps(g *hx.Gen, tid string) []*msg.NatHoleResp {
 	r := &msg.NatHoleResp{TransactionID: tid, Sid: g.Pick([]string{"", "sid1", "\x00", strings.Repeat("s", 2000)}), Protocol: g.Pick([]string{"", "quic", "kcp", "bogus"}),
 		CandidateAddrs: advAddrList(g), AssistedAddrs: advAddrList(g)}
@@ -423,7 +423,12 @@ func advNatHoleResps(g *hx.Gen, tid string) []*msg.NatHoleResp {
 	b.ReadTimeoutMs = []int{30, 30, 100, 100, 1, 0, -1, math.MaxInt32}[g.Intn(8)]
 	b.CandidatePorts = advPortsRanges(g)
 	b.SendRandomPorts = []int{0, 0, 1, 5, -1, math.MaxInt32}[g.Intn(6)]
-	b.ListenRandomPorts = []int{0, 0, 1, 3, 16, -1, math.MinInt64}[g.Intn(7)]
+	b.ListenRandomPorts = []int{0, 0, 1, 3, 16, -1, math.MinInt64, 256, 1024, 70000, math.MaxInt32, math.MaxInt64}[g.Intn(12)]
+	if b.ListenRandomPorts > 16 && (b.ReadTimeoutMs <= 0 || b.ReadTimeoutMs > 100) {
+		// many sockets AND a peer-chosen long hold is a different input class (see design/C16.md, "Not covered"): here the
+		// sockets are given back after at most 100 ms
+		b.ReadTimeoutMs = 100
+	}
 	if g.Chance(0.1) {
 		r.Error = g.Pick(advStrings)
 	}
@@ -1143,9 +1148,6 @@ func (e *epoch) barrageStep(cs *ctlSess) (kind, typ, detail string, over bool) {
 		m := msgProtos[g.Intn(len(msgProtos))]()
 		mutate(g, reflect.ValueOf(m).Elem())
 		kind, typ, detail = "ctl-mutated", reflect.TypeOf(m).Elem().Name(), fmt.Sprintf("%+v", m)
-		if nr, ok := m.(*msg.NatHoleResp); ok {
-			nr.DetectBehavior.ListenRandomPorts %= 17
-		}
 		if p, ok := m.(*msg.Pong); ok && p.Error != "" {
 			kind, over = "ctl-pong-error", true
 		}
